@@ -443,7 +443,13 @@ def parseLine(raw, eols=(CRLF, LF, CR ), kind="event line"):
 
     Raise error if eol not found before MAX_LINE_SIZE
     """
+    skiplf = False  # True means prior line ended with CR as last byte in raw
     while True:
+        if skiplf and raw:  # LF split from its CR by read boundary is same eol
+            if raw[:1] == LF:
+                del raw[:1]
+            skiplf = False
+
         index = -1
         for sep in eols:  # find earliest eol in raw, first listed wins ties
             i = raw.find(sep)  # not found i == -1
@@ -462,6 +468,8 @@ def parseLine(raw, eols=(CRLF, LF, CR ), kind="event line"):
             raise LineTooLong(kind)
 
         line = raw[:index]
+        if eol == CR and CRLF in eols and index + 1 == len(raw):
+            skiplf = True  # rest of CRLF may arrive with next read
         index += len(eol)  # strip eol
         del raw[:index] # remove used bytes
         (yield line)
